@@ -232,6 +232,9 @@ class Contract(object):
             else:
                 raise EngineError('modifies path %s is not an object' % head)
         outcomes = ['normal'] + sorted(self.raises.keys())
+        self._site = (caller, self.qualname, site)
+        if not ctx.replaying():
+            ctx.collector.call_sites.setdefault(self._site, set())
         k = ctx.choose(len(outcomes), 'outcome of ' + self.qualname)
         if k == 0:
             for g, (T, _w) in self.ghost.items():
@@ -257,9 +260,10 @@ class Contract(object):
         env.vars['exc'] = exc
         for lab, c in spec['ensures']:
             ctx.assume(it.spec_truth(c, env))
+        self._check_consistent(it, ename)
         raise PyExc(exc, 'contract:%s' % self.qualname)
 
-    def _check_consistent(self, it):
+    def _check_consistent(self, it, outcome='normal'):
         """An assumed postcondition that contradicts the state would silently kill the path
         (vacuous proofs below it): that is a checker error, never a pass."""
         ctx = it.ctx
@@ -268,8 +272,10 @@ class Contract(object):
         import z3 as _z3
         r = ctx.solver.check()
         if r == _z3.unsat:
-            raise EngineError('assumed contract of %s is inconsistent with the state at this call '
-                              '(postcondition unsatisfiable)' % self.qualname)
+            # this outcome is impossible in this state; fine as long as some other outcome of the same
+            # call is possible (checked per call site when the unit is summarised)
+            raise PathAbort()
+        ctx.collector.call_sites.setdefault(self._site, set()).add(outcome)
 
     def _default_exc(self, it, ename):
         cls = it.program.builtin_classes.get(ename)
